@@ -123,12 +123,12 @@ Print Assumptions T02b_hess_is_second_derivative_diag.
 (* Entry i of the gradient list (resp. (i, j) of the Hessian) is the derivative with respect to the
    i-th (and j-th) name of the list of names ... *)
 Theorem T02d_grad_entry : forall names e i, (i < List.length names)%nat ->
-  nth i (grad names e) zero = D (WBeta (nth i names EmptyString)) e.
+  nth i (grad names e) Deriv.zero = D (WBeta (nth i names EmptyString)) e.
 Proof. exact grad_nth. Qed.
 Print Assumptions T02d_grad_entry.
 
 Theorem T02d_hess_entry : forall names e i j, (i < List.length names)%nat -> (j < List.length names)%nat ->
-  nth j (nth i (hess names e) []) zero =
+  nth j (nth i (hess names e) []) Deriv.zero =
   D (WBeta (nth j names EmptyString)) (D (WBeta (nth i names EmptyString)) e).
 Proof. exact hess_nth. Qed.
 Print Assumptions T02d_hess_entry.
